@@ -17,7 +17,7 @@ def main():
                 key = (s["harness"], s["variant"], tuple(s.get("flags", ())))
                 if key not in seen:
                     seen.add(key)
-                    jobs.append(lambda s=s: build.harness(s["harness"], s["variant"], s.get("flags", ()), s.get("extra_srcs", ()), s.get("link", ())))
+                    jobs.append(lambda s=s: build.harness(s["harness"], s["variant"], s.get("flags", ()), s.get("extra_srcs", ()), s.get("link", ()), s.get("harness_variant")))
             for t in s.get("tools", ()):
                 variants.add(s.get("tool_variant", "asan"))
                 if ("tool", t) not in seen:
